@@ -72,6 +72,11 @@ def run_conf(ctx, exe=None):
     ini, ac, acm = gen_inputs(ctx)
     ops = ['env %s %s' % (hx(b'HOME'), hx(b'/h'))]
     ops += ['ini 61 ' + hx(s) for s in ini]
+    # the file entry point: qconfig_parse_file scans the whole text for the include directive first; an occurrence that is
+    # not at the start of a line is ordinary text (in a comment, in a value, indented), with and without a final newline
+    mid = [b'a=1\n# see @INCLUDE other.conf', b'a=1\n# see @INCLUDE other.conf\n', b'v=x @INCLUDE y', b'v=x @INCLUDE y\n', b'  @INCLUDE inc.conf',
+           b'  @INCLUDE inc.conf\n', b'a=1\n\t@INCLUDE ', b'k=@INCLUDE @INCLUDE ', b'[s]\nn=1 @INCLUDE z\nm=2', b'x @INCLUDE', b'@INCLUDEx=1', b'a=b\n @INCLUDE \n']
+    ops += ['inif 61 ' + hx(s) for s in mid] + ['inif 61 ' + hx(s) for s in ini[:: max(1, len(ini) // 150)] if b'@INCLUDE ' not in s]
     tbl = enc_table(AC_C17_TABLE)
     for s in ac:
         ops.append('ac 0 0 %s %s' % (tbl, hx(s)))
@@ -95,7 +100,7 @@ def run_conf(ctx, exe=None):
             ctx.distinct.add(op)
         if a in ('CRASH', 'TIMEOUT', 'DIED'):
             obs = 'timeout' if a == 'TIMEOUT' else 'crash'
-            ctx.report('impl-vs-spec', {'op': kind, 'observed': obs}, '%s parser: %s on arbitrary input' % ('INI-style' if kind == 'ini' else 'Apache-style', obs),
+            ctx.report('impl-vs-spec', {'op': kind, 'observed': obs}, '%s parser: %s on arbitrary input' % ('INI-style' if kind in ('ini', 'inif') else 'Apache-style', obs),
                        {'area': 'conf', 'ops': [ops[0], op], 'actual': a})
         elif a != m:
             nbad += 1
@@ -123,14 +128,14 @@ def run_conf(ctx, exe=None):
             obs = 'overread' if 'buffer-overflow' in tail and 'READ' in tail else 'crash'
             m = re.search(r'(ERROR: AddressSanitizer: [^\n]*|runtime error: [^\n]*|SUMMARY: [^\n]*)', tail)
             ctx.report('impl-vs-spec', {'op': kind, 'observed': obs},
-                       '%s parser: %s under %s' % ('INI-style' if kind == 'ini' else 'Apache-style', m.group(1) if m else 'process died', name),
+                       '%s parser: %s under %s' % ('INI-style' if kind in ('ini', 'inif') else 'Apache-style', m.group(1) if m else 'process died', name),
                        {'area': 'conf', 'ops': [xops[0], op], 'build': name, 'stderr': tail[-800:]})
         for k, l in enumerate(sl):
             if l in ('CRASH', 'TIMEOUT'):
                 op = xops[k]
                 kind = op.split(' ')[0]
                 ctx.report('impl-vs-spec', {'op': kind, 'observed': 'timeout' if l == 'TIMEOUT' else 'crash'},
-                           '%s parser: %s under %s' % ('INI-style' if kind == 'ini' else 'Apache-style', l, name), {'area': 'conf', 'ops': [xops[0], op], 'build': name})
+                           '%s parser: %s under %s' % ('INI-style' if kind in ('ini', 'inif') else 'Apache-style', l, name), {'area': 'conf', 'ops': [xops[0], op], 'build': name})
     # ---- directed: deeply nested sections (stack use of the recursion: 4 KiB line buffer per level)
     deep = []
     for depth in (200, 1500, 2500, 6000):
